@@ -239,6 +239,28 @@ def run(ctx):
             if got != want:
                 res.violations.append(vlib.Violation("the table cites different objects than JSON v1 (rows in table order)", {"scenario": "four commits, trees maximal in different metrics"},
                                                      expected=want, observed=got))
+            # the threshold is the same number whether it comes from --threshold or from sizer.threshold in gitconfig (parsed
+            # as binary64 in both cases): thresholds that single precision cannot hold, equal to levels of this repository
+            # (1 parent / 10, path depth 2 / 10, ...), must give byte-identical tables, and the rows shown are exactly the
+            # items whose JSON v2 levelOfConcern is >= the threshold
+            if it < (2 if quick else 10):
+                levels = sorted({v["levelOfConcern"] for v in j2.values() if isinstance(v, dict) and "levelOfConcern" in v})
+                ts = ["0.1", "0.2", "0.3", "0.7", "1.1", "0.5", "1e-50", "1e39", "29.999999999999996"] + [repr(x) for x in levels if 0 < x < 40][:6]
+                for t in ts:
+                    rca, outa, erra, _ = eng.run_fake(sc, order, [], [], extra_args=["--threshold=" + t, "--no-progress", "--names=hash"])
+                    rcb, outb, errb, _ = eng.run_fake(sc, order, [], [], config=[("sizer.threshold", t)], extra_args=["--no-progress", "--names=hash"])
+                    res.case(("threshold-source", tuple(sc.oids), t), True)
+                    inp = {"threshold": t, "scenario": "four commits, trees maximal in different metrics"}
+                    if rca != rcb or outa != outb:
+                        res.violations.append(vlib.Violation("sizer.threshold=%s in gitconfig gives a different table than --threshold=%s" % (t, t), inp,
+                                                             expected={"rc": rca, "table": outa[:500].decode("latin1")},
+                                                             observed={"rc": rcb, "table": outb[:500].decode("latin1"), "stderr": errb[:200].decode("latin1")}))
+                    if rca == 0:
+                        shown = 0 if outa.startswith(b"No problems") else len([l for l in table_rows(outa.decode("utf-8", "replace")) if l.split("|")[2].strip() != ""])
+                        want_rows = sum(1 for v in j2.values() if isinstance(v, dict) and "levelOfConcern" in v and v["levelOfConcern"] >= float(t))
+                        if shown != want_rows:
+                            res.violations.append(vlib.Violation("the rows shown at --threshold=%s are not the items whose JSON v2 levelOfConcern is >= the threshold" % t, inp,
+                                                                 expected=want_rows, observed=shown))
     finally:
         eng.close()
     res.coverage_extra["input_distribution"] = stats
